@@ -35,7 +35,7 @@ m = {
     "setup_cmd": "true",
     "hooks": {
         "guard": "YARL_VERIF",
-        "enable": "no source hooks are needed: every check observes the public API of a scratch copy of /repo's current working tree (rebuilt, including the Cython extension, on every run); recording uses sys.monitoring / the public API",
+        "enable": "no source hooks are needed: every check observes the public API of a scratch copy of /repo's current working tree (rebuilt, including the Cython extension, on every run); recording uses the public API, a pytest plugin that wraps the public methods of the scratch copy (suite harvest) and sys.settrace (C20 baton scheduler); the two object caches and the three host caches are re-wrapped / configured by the harness through their public or module-level handles, never by editing sources",
         "baseline_off_cmd": "cd /repo && /venv/bin/python -m pytest -ra -q -p no:cacheprovider --timeout=900 --continue-on-collection-errors",
         "source_commits": [],
         "add_only": True,
